@@ -319,6 +319,84 @@ def _bare_variable_cases(nnx, jnp):
   return None, None
 
 
+def _removal_and_rng_cases(nnx, jnp):
+  """(1) a function that REMOVES a Variable the module held on entry (nnx.pop / del): after grad / vmap the caller's module is
+  in the state the eager call leaves - the Variable is gone. (2) vmap under split_rngs called repeatedly: every call gets fresh
+  per-index keys and the Rngs end where the reference leaves them."""
+  import jax
+
+  class Net(nnx.Module):
+    def __init__(self):
+      self.w = nnx.Param(jnp.asarray([1.0, 2.0, 3.0]))
+      self.steps = nnx.BatchStat(jnp.zeros((), jnp.int32))
+
+    def __call__(self, x):
+      h = jnp.tanh(self.w.value * x)
+      self.sow(nnx.Intermediate, 'acts', h)
+      self.steps.value += 1
+      return h
+
+  def loss_fn(model, x):
+    pred = model(x)
+    inter = nnx.pop(model, nnx.Intermediate)
+    return jnp.mean(pred ** 2) + 0.1 * sum(jnp.mean(a ** 2) for a in inter['acts'].value) / len(inter['acts'].value)
+  x = jnp.asarray([0.5, -1.0, 2.0])
+  for kind in ('grad', 'value_and_grad'):
+    model, ref = Net(), Net()
+    model(x)
+    ref(x)                               # both hold an Intermediate from an eager call
+    want_loss = loss_fn(ref, x)          # the reference: the eager call (pops the intermediates)
+    out = (nnx.grad if kind == 'grad' else nnx.value_and_grad)(loss_fn)(model, x)
+    for step in (1, 2):
+      if hasattr(model, 'acts') != hasattr(ref, 'acts') or int(model.steps.value) != int(ref.steps.value):
+        return dict(transform=kind, program='loss pops the Intermediates the module held on entry', after_call=step), \
+            f'after the transform the module has acts={hasattr(model, "acts")}, steps={int(model.steps.value)}; after the eager call acts={hasattr(ref, "acts")}, steps={int(ref.steps.value)}'
+      want_loss = loss_fn(ref, x)
+      out = nnx.value_and_grad(loss_fn)(model, x)
+      if not np.allclose(float(out[0]), float(want_loss), atol=1e-6):
+        return dict(transform=kind, program='loss pops the Intermediates the module held on entry', after_call=step + 1), f'loss {float(out[0])} differs from the eager loss {float(want_loss)} (stale intermediates re-entered)'
+
+  class Cell(nnx.Module):
+    def __init__(self):
+      self.scratch = nnx.BatchStat(jnp.zeros((4,)))
+      self.total = nnx.BatchStat(jnp.zeros((4,)))
+
+  def fold(cell, xv):
+    cell.total.value = cell.total.value + cell.scratch.value + xv
+    del cell.scratch
+    return cell.total.value
+  cell = Cell()
+  nnx.vmap(fold, in_axes=(0, 0), out_axes=0)(cell, jnp.arange(4.0))
+  if hasattr(cell, 'scratch') or not np.allclose(np.asarray(cell.total.value), np.arange(4.0)):
+    return dict(transform='vmap', program='body deletes an attribute Variable of the module'), f'after vmap the module still has scratch={hasattr(cell, "scratch")}, total={np.asarray(cell.total.value).tolist()}'
+  # split_rngs + vmap, three consecutive calls
+  N = 4
+
+  def body(rngs):
+    return jax.random.key_data(rngs.dropout())
+
+  @nnx.split_rngs(splits=N)
+  @nnx.vmap(in_axes=(nnx.StateAxes({nnx.RngState: 0}),), out_axes=0)
+  def draw_all(rngs):
+    return body(rngs)
+  rngs = nnx.Rngs(params=0, dropout=1)
+  ref = nnx.Rngs(params=0, dropout=1)
+  seen = []
+  for call in range(3):
+    out = np.asarray(draw_all(rngs))
+    kd = jax.random.split(ref.dropout(), N)        # the split consumes one key of the stream and splits it
+    ref.params()
+    want = np.stack([np.asarray(jax.random.key_data(nnx.Rngs(dropout=kd[i]).dropout())) for i in range(N)])
+    if out.shape != want.shape or not np.array_equal(out, want):
+      return dict(transform='vmap', program='@split_rngs(splits=4) @vmap drawing one key per index', call=call), 'per-index keys differ from splitting the next key of the stream and drawing once per index'
+    seen += [tuple(r.ravel().tolist()) for r in out]
+    if int(rngs.dropout.count.value) != int(ref.dropout.count.value):
+      return dict(transform='vmap', program='@split_rngs(splits=4) @vmap drawing one key per index', call=call), f'after the call the stream count is {int(rngs.dropout.count.value)}, the reference (one key consumed by the split) is at {int(ref.dropout.count.value)}'
+  if len(set(seen)) != len(seen):
+    return dict(transform='vmap', program='@split_rngs(splits=4) @vmap, three calls'), 'a per-index key was handed out twice across the calls'
+  return None, None
+
+
 def run(tier, seed):
   from flax import nnx
   import jax.numpy as jnp
@@ -377,7 +455,16 @@ def run(tier, seed):
       inp, msg = dict(check='bare-variables'), f'raised {e!r}'[:300]
     if msg:
       fails.append(dict(inputs=inp, observed=msg, violated='side-effects-propagated'))
-  return dict(name=NAME, cases=cases, distinct=cases, bound='scan: StateAxes axis in {0,1,2,-1} x reverse (decorator form); vmap: axis in {0,1,2,-1}; grad / value_and_grad x 11 argnums / DiffState configurations over 3 module arguments; 4 input aliasing conflicts + 6 input/output aliasing conflicts; 4 programs over bare Variables / containers of Variables; scan Carry holding 2 / 3 modules of one class',
+  if not fails:
+    cases += 6
+    try:
+      inp, msg = _removal_and_rng_cases(nnx, jnp)
+    except Exception as e:  # noqa
+      import traceback
+      inp, msg = dict(check='removal / split_rngs'), f'raised {e!r} ' + traceback.format_exc()[-300:]
+    if msg:
+      fails.append(dict(inputs=inp, observed=msg[:500], violated='side-effects-propagated'))
+  return dict(name=NAME, cases=cases, distinct=cases, bound='scan: StateAxes axis in {0,1,2,-1} x reverse (decorator form); vmap: axis in {0,1,2,-1}; grad / value_and_grad x 11 argnums / DiffState configurations over 3 module arguments; 4 input aliasing conflicts + 6 input/output aliasing conflicts; 4 programs over bare Variables / containers of Variables; grad / value_and_grad / vmap over functions that remove a Variable of the module; split_rngs + vmap called three times; scan Carry holding 2 / 3 modules of one class',
               failures=fails[:2], error=None)
 
 
